@@ -22,7 +22,7 @@ ASSUMPTIONS = ["the independent model vf/model/{blssig,h2c,bls12381}.py and its 
                "hashlib.sha256 is correct"]
 ENGINE = "hypothesis"
 TECHNIQUE = ("differential property-based testing (Hypothesis) against an independent implementation of the IETF draft anchored by published vectors; cross-suite call sequences")
-_REQ = ["cross_suite_sequence", "sign:basic", "sign:aug", "sign:pop", "pop_prove", "aggregate:n>=2", "anchor:eth_sig", "anchor:eth_agg",
+_REQ = ["cross_suite_sequence", "sign:msg_contains_own_pk", "sign:basic", "sign:aug", "sign:pop", "pop_prove", "aggregate:n>=2", "anchor:eth_sig", "anchor:eth_agg",
         "anchor:eth_pk", "sign:sk>=200b", "sign:msg=empty", "sign:msg=56-64", "aggregate:non_subgroup", "aggregate:prefix_sums_to_identity", "aggregate:result_y_im=0"]
 REQUIRED_LABELS = {"quick": _REQ, "thorough": _REQ}
 
@@ -55,6 +55,8 @@ def o_sign(ctx, case):
         ctx.label("anchor:eth_sig")
         ctx.label("anchor:eth_pk")
     ctx.label(f"sign:{suite}")
+    if case.get("own_pk"):
+        ctx.label("sign:msg_contains_own_pk")
     ctx.label(f"sign:sk{sc.sk_class(sk)}" if sc.sk_class(sk) != "boundary" else "sign:sk=boundary")
     if sk.bit_length() >= 200:
         ctx.label("sign:sk>=200b")
@@ -140,7 +142,19 @@ ORACLES = {"sign": o_sign, "pop_prove": o_pop, "aggregate": o_aggregate, "cross"
 
 
 def s_sign(big):
-    return st.fixed_dictionaries({"suite": sc.s_suite(), "sk": sc.s_sk(), "msg": s_msg(300, big=big).map(hx)})
+    base = st.fixed_dictionaries({"suite": sc.s_suite(), "sk": sc.s_sk(), "msg": s_msg(300, big=big).map(hx)})
+
+    def own_pk_prefix(t):
+        d, k = t
+        if k == 0:
+            return d
+        pk = blssig.sk_to_pk(d["sk"])
+        m = unhx(d["msg"])
+        d = dict(d)
+        d["msg"] = hx([pk + m[:40], pk, pk + pk, m[:8] + pk][k - 1])       # the signer's key bytes inside the message
+        d["own_pk"] = True
+        return d
+    return st.tuples(base, st.sampled_from([0, 0, 0, 0, 1, 2, 3, 4])).map(own_pk_prefix)
 
 
 def s_aggregate():
@@ -189,6 +203,8 @@ def t_sign(ctx, shard, nshards, n):
         for sk in sc.BOUNDARY_SKS:
             ex.append({"suite": suite, "sk": sk, "msg": ""})
             ex.append({"suite": suite, "sk": sk, "msg": hx(b"\xa5" * 64)})
+        ex.append({"suite": suite, "sk": 7, "msg": hx(blssig.sk_to_pk(7) + b"tail"), "own_pk": True})
+        ex.append({"suite": suite, "sk": R - 1, "msg": hx(blssig.sk_to_pk(R - 1)), "own_pk": True})
     drive(ctx, f"sign{shard}", s_sign(ctx.tier == "thorough"), lambda c: o_sign(ctx, c), n, ex[shard::nshards],
           shrink=False)
 
